@@ -61,7 +61,7 @@ class NoReturnView(object):
         if not changed:
             return False
         try:
-            d2 = Dyn(dict(self.prog, src=src2), 'continue', max(4000, self.cap * 10))
+            d2 = Dyn(dict(self.prog, src=src2), 'continue', max(4000, self.cap * 10), lenient=True)
         except Exception:
             return False
         self.exhaustive = d2.exhaustive
@@ -181,6 +181,9 @@ def check_program(prog, cap):
                     continue
                 if rid in ins.class_comp_reads:
                     problems.append(('class-body-comprehension-sees-class-names', 'read %s at %s is unbound on every path (class scope skipped) but supp resolves it to a class-level name' % (name, pos)))
+                    continue
+                if pos in split_reads and name in split_reads[pos]:
+                    problems.append(('statement-split-by-comprehension', 'read %s at %s is unbound on every path; supp resolves it to the binding its own statement makes afterwards' % (name, pos)))
                     continue
                 problems.append(('never-bound-not-flagged:%s' % ctx,
                                  'read %s at %s is unbound on every path but lint does not report Undefined name' % (name, pos)))
